@@ -20,7 +20,7 @@ OUT = ('STATED PROMINENTLY: coredata.dat pickling, cmd_line.txt, --wipe replay, 
 MANIFEST = dict(
     text='Bounded model checking of the in-memory option state machine: all command histories up to the bound with symbolic values against a last-value/default reference model. '
          'Claimed for the in-memory transitions only; persistence files, --wipe and rollback are outside.',
-    note='Partial claim. Trusted: symx engine, z3, the reference model. Bounds: histories of <=3 (quick) / 4 (thorough) commands over 9 command kinds.')
+    note='Partial claim. Trusted: symx engine, z3, the reference model. Bounds: histories of <=3 (quick) / 4 (thorough) commands over 10 command kinds; a configure command is saved iff set_from_configure_command reports a change, as mconf.run_impl does.')
 
 O = ME = None
 
@@ -53,21 +53,22 @@ def ob_history(n):
         persisted = st
         for i in range(n):
             work = copy.deepcopy(persisted)       # load
-            cmd = choose(9, 'cmd%d' % i)
+            cmd = choose(10, 'cmd%d' % i)
             ok = True
+            dirty = True       # option-file re-reads are always saved; configure commands save iff set_from_configure_command says something changed (mconf.run_impl)
             new = dict(ref)
             try:
                 if cmd == 0:
                     v = sym_enum(CH + ['zz'], 'v%d' % i)
                     bad = decide(bt_any(v == 'zz'))
                     vv = v.concretize() if hasattr(v, 'concretize') else v
-                    work.set_from_configure_command({K('someopt'): vv})
+                    dirty = work.set_from_configure_command({K('someopt'): vv})
                     check(not bad, 'a value outside the choices is rejected'); new['someopt'] = vv
                 elif cmd == 1:
                     v = CH[choose(4, 'v%d' % i)]
-                    work.set_from_configure_command({K('someopt', subproject='sub'): v}); new['aug'] = v
+                    dirty = work.set_from_configure_command({K('someopt', subproject='sub'): v}); new['aug'] = v
                 elif cmd == 2:
-                    work.set_from_configure_command({K('someopt', subproject='sub'): None}); new['aug'] = None
+                    dirty = work.set_from_configure_command({K('someopt', subproject='sub'): None}); new['aug'] = None
                 elif cmd == 3:
                     v = sym_int('iv%d' % i, -9, 9)
                     raw = sym_str_of_int(v, 1) if choose(2, 'asstr%d' % i) else v
@@ -75,7 +76,7 @@ def ob_history(n):
                         work.set_from_configure_command({pk: raw})
                         check(False, 'setting a removed option is rejected')
                     else:
-                        work.set_from_configure_command({pk: raw})
+                        dirty = work.set_from_configure_command({pk: raw})
                         if ref['popt_kind'] == 'int':
                             check(sym_and(v >= ref['plo'], v <= ref['phi']), 'a value outside [min, max] is rejected'); new['popt'] = v
                         else:
@@ -114,13 +115,18 @@ def ob_history(n):
                     keep[K('newopt', subproject='')] = O.UserStringOption('newopt', 'x', 'fresh')
                     work.update_project_options(keep, '')
                     if ref['newopt'] is None: new['newopt'] = 'fresh'
+                elif cmd == 9:      # two assignments in one command: the first changes a value, the second restates the current one
+                    v = CH[choose(4, 'v%d' % i)]
+                    dirty = work.set_from_configure_command({K('someopt', subproject='sub'): v, K('someopt'): ref['someopt']})
+                    new['aug'] = v
                 else:               # two assignments in one command, the second invalid: nothing may change
                     work.set_from_configure_command({K('someopt'): 'c2', K('someopt', subproject='sub'): 'zz'})
                     check(False, 'an invalid value in a command is rejected')
             except ME:
                 ok = False
             if ok:
-                persisted = work; ref = new       # save
+                ref = new
+                if dirty: persisted = work       # save
             cover('ok' if ok else 'failed')
             # ---- compare every key with the reference after the step
             check(eq(persisted.get_value_for('someopt'), ref['someopt']), 'top-level value = last value given, else default')
@@ -145,6 +151,6 @@ def obligations(tier):
     q = tier == 'quick'
     out = []
     for n in (1, 2, 3) if q else (1, 2, 3, 4):
-        out.append(Obligation('history[%d]' % n, ob_history(n), dict(commands=n, kinds='-Dopt, -Dsub:opt, -Usub:opt, -Dpopt, re-range, remove, re-type, add, failing command'),
+        out.append(Obligation('history[%d]' % n, ob_history(n), dict(commands=n, kinds='-Dopt, -Dsub:opt, -Usub:opt, -Dpopt, re-range, remove, re-type, add, failing command, two -D in one command'),
                               labels=('ok', 'failed'), max_paths=20000000))
     return out
